@@ -24,6 +24,8 @@ type ByzCfg struct {
 	Kinds    []string `json:"kinds"`
 	Budget   int      `json:"budget"`
 	Rate     uint64   `json:"rate"`
+	// Collude: two Byzantine participants mirror each other (see Adversary.Collude)
+	Collude []uint16 `json:"collude,omitempty"`
 }
 
 var byzKinds = []string{"byz-equivocate", "byz-forge-ack", "byz-replay", "byz-mutate", "byz-withhold-selective", "outsider"}
@@ -90,7 +92,81 @@ func genByz(seed uint64, tier string, honestOnlySometimes bool) ByzCfg {
 	if len(c.Kinds) == 0 {
 		c.Kinds = []string{"byz-replay"}
 	}
+	if rc := prng.Derive(seed, "collude"); rc.Bool(0.2) {
+		colludeCfg(&c, rc, tier)
+	}
 	return c
+}
+
+// colludeCfg turns the configuration into a session of n = 4..5 (thorough ..6) with exactly two Byzantine
+// participants that mirror each other, over identifiers that are easy to mistake for one another in 3 of 4 runs
+// (equal low bytes, equal high bytes, one bit apart).
+func colludeCfg(c *ByzCfg, r *prng.Rand, tier string) {
+	n := 4
+	if r.Bool(0.3) {
+		n = 5
+	}
+	if tier == "thorough" && r.Bool(0.2) {
+		n = 6
+	}
+	var b1, b2 uint16
+	switch r.Intn(4) {
+	case 0: // same low byte
+		lo := uint16(r.Intn(256))
+		h1 := uint16(r.Intn(256))
+		h2 := uint16(r.Intn(256))
+		for h2 == h1 {
+			h2 = uint16(r.Intn(256))
+		}
+		b1, b2 = h1<<8|lo, h2<<8|lo
+	case 1: // same high byte
+		hi := uint16(r.Intn(256))
+		l1 := uint16(r.Intn(256))
+		l2 := uint16(r.Intn(256))
+		for l2 == l1 {
+			l2 = uint16(r.Intn(256))
+		}
+		b1, b2 = hi<<8|l1, hi<<8|l2
+	case 2: // one bit apart
+		b1 = uint16(r.Intn(65536))
+		b2 = b1 ^ (1 << uint(r.Intn(16)))
+	default:
+		b1, b2 = 1, 2
+	}
+	seen := map[uint16]bool{b1: true, b2: true}
+	ids := []uint16{b1, b2}
+	for len(ids) < n {
+		var id uint16
+		if r.Bool(0.5) {
+			id = uint16(r.Intn(65536))
+		} else {
+			id = uint16(r.Range(1, 12))
+		}
+		if !seen[id] {
+			seen[id] = true
+			ids = append(ids, id)
+		}
+	}
+	sort.Slice(ids, func(i, j int) bool { return ids[i] < ids[j] })
+	if r.Bool(0.5) {
+		b1, b2 = b2, b1
+	}
+	c.Sess.N = n
+	c.Sess.T = r.Range(1, n)
+	c.Sess.Late = -1
+	c.Sess.Deploy.IDs = append([]uint16(nil), ids...)
+	c.Sess.Deploy.PIDs = identityPIDs(ids)
+	c.Sess.Deploy.Threshold = n - 1
+	c.Sess.Deploy.PickFixed = append([]uint16(nil), ids...)
+	c.Sess.Signers = ids
+	c.Invokers = ids
+	c.Outsider = nil
+	c.Byz = []uint16{b1, b2}
+	if b1 > b2 {
+		c.Byz = []uint16{b2, b1}
+	}
+	c.Collude = []uint16{b1, b2}
+	c.Kinds = []string{"byz-collude"}
 }
 
 type byzRun struct {
@@ -131,6 +207,9 @@ func runByz(spec RunSpec, cfg ByzCfg, res *RunResult) (*byzRun, *netsim.ScriptSc
 		kinds[k] = true
 	}
 	adv := &Adversary{W: w, Seed: spec.Seed, Byz: isByz, Honest: br.honest, Outsider: cfg.Outsider, Topics: map[string]bool{string(topic): true}, Kinds: kinds, Budget: cfg.Budget, Rate: cfg.Rate}
+	if len(cfg.Collude) == 2 {
+		adv.Collude = &[2]uint16{cfg.Collude[0], cfg.Collude[1]}
+	}
 	br.adv = adv
 	w.Filter = adv.Filter
 	sched, ss := scheduler(spec, cfg.Sess.Strategy)
@@ -304,6 +383,9 @@ func runByzCheck(prop string) func(t *testing.T, spec RunSpec) *RunResult {
 			mode = "silent"
 		}
 		res.ConfigKey = fmt.Sprintf("N=%d byz=%d outsiders=%d %s %s", cfg.Sess.N, len(cfg.Byz), len(cfg.Outsider), mode, cfg.Sess.Op)
+		if len(cfg.Collude) == 2 {
+			res.ConfigKey += " colluding-pair"
+		}
 		bubble(t, func() {
 			br, ss := runByz(spec, cfg, res)
 			w, d := br.w, br.d
